@@ -139,6 +139,11 @@ def main():
         from crosshair.core_and_libs import (MessageType, analyze_function,
                                              run_checkables)
         from crosshair.options import AnalysisOptionSet
+        import crosshair.core as _chcore
+        # Never skip ("short-circuit") a callee by assuming its contract: every function is
+        # executed symbolically.  (CrossHair would otherwise replace e.g. hash() or any contracted
+        # helper by an unconstrained proxy value with some probability.)
+        _chcore.consider_shortcircuit = lambda *a, **k: None
         if flags['USE_TOKENS']:
             from mpgverif import inttok
             inttok.install()
